@@ -1,6 +1,6 @@
 (* C14 property theorems. Nothing but statements closed by `exact lemma` and Print Assumptions. *)
 From Coq Require Import ZArith List Bool Lia.
-From OG Require Import C14.Model C14.Proofs C14.Inv C14.XModel C14.XProofs C14.XInv C14.XNode C14.XAgree C14.XAgreeIx C14.LK.
+From OG Require Import C14.Model C14.Proofs C14.Inv C14.XModel C14.XProofs C14.XInv C14.XNode C14.XAgree C14.XAgreeIx C14.LK C14.XGuard C14.TTL.
 Import ListNotations.
 Open Scope Z_scope.
 
@@ -356,3 +356,31 @@ Example C14_logkeeper_raise_after_mark_is_not_a_recall :
     = [{| ld_gid := 1; ld_sid := 1; ld_now := 11 * H + 1 + DAY |}; {| ld_gid := 1; ld_sid := 2; ld_now := 11 * H + 1 + DAY |}] /\
   snd (lk_run {| l_d := H; l_groups := [] |} [LAdd 1 (10 * H) [1; 2]; LTick (11 * H + 1); LAlter 0; LRecall; LTick (11 * H + 1 + DAY)]) = [].
 Proof. vm_compute. auto. Qed.
+
+(* -- proposed hardening of the engine (props/C14/harden1.patch): an index is not reported expired while a loaded shard
+      that holds it is unexpired. REDUNDANT under the repaired catalogue: when the catalogue satisfies XInv and the node
+      agrees with it, the guard is true for every index the pass deletes, so the patch changes nothing there (it only
+      matters when the catalogue or the node's view is wrong, as with the two defects found earlier). -- *)
+Theorem C14_index_guard_redundant : forall rep w pt now now2,
+  XInv (x_cat w) -> NodeOK w pt ->
+  forall X, In X (l_ixs (snd (xtick rep w pt now now2))) -> guard_ok (pass_shards w pt) pt now2 X = true.
+Proof. exact guard_redundant. Qed.
+Print Assumptions C14_index_guard_redundant.
+
+(* -- measurement TTL and SchemaClean (TTL.v): the other two deleters -- *)
+(* measurement TTL: only shards / indexes of the measurement's policy whose span ended more than the TTL ago; TTL 0 never *)
+Theorem C14_mst_ttl_rule : forall rp ttl now shards id,
+  In id (mst_expired_shards rp ttl now shards) -> exists e, In (id, rp, e) shards /\ ttl <> 0 /\ e + ttl < now.
+Proof. exact mst_ttl_rule. Qed.
+Theorem C14_mst_ttl_zero_never : forall rp now shards, mst_expired_shards rp 0 now shards = [].
+Proof. exact mst_ttl_zero_never. Qed.
+(* SchemaClean drops a field only if the latest group it was written to ends less than 2^32 ns (4.29 s) after the pruned
+   group; so, group ends of one policy being at least that far apart, only fields all of whose data is expired *)
+Theorem C14_schema_clean_bound : forall fe pe, schema_drop fe pe = true -> fe < pe + P32.
+Proof. exact schema_drop_bound. Qed.
+Theorem C14_schema_clean_only_expired : forall d fe pe now,
+  (fe <= pe \/ pe + P32 <= fe) -> schema_drop fe pe = true -> expired d pe now = true -> expired d fe now = true.
+Proof. exact schema_drop_expired. Qed.
+Print Assumptions C14_schema_clean_only_expired.
+Example C14_schema_clean_example : schema_clean [(1, 3600000000000); (2, 7200000000000); (3, 3600000000000 + 1000000000); (4, 3600000000000 + 4294967296)] 3600000000000 = [(2, 7200000000000); (4, 3604294967296)].
+Proof. vm_compute. reflexivity. Qed.
